@@ -218,11 +218,9 @@ def skipWhitespace (P : Preds) (L : Lexer) : Res Lexer :=
 def skipShebang (P : Preds) (L : Lexer) : Res Lexer :=
   match eatStr ['#', '!'] L.input with
   | (true, t) =>
-    if startsWith (fun c => !P.whitespace c) t then
-      match L.bumpTo (eatUntil '\n' t) with
-      | .panic => .panic
-      | .ok r => .ok r.2.2
-    else .ok L
+    match L.bumpTo (eatUntil '\n' t) with
+    | .panic => .panic
+    | .ok r => .ok r.2.2
   | (false, _) => .ok L
 
 /-! ## Recognisers -/
